@@ -42,7 +42,7 @@ theorem next_aggregate (B : Nat) (d : Node) (idx ep r : Nat) : NExt d (d.aggrega
   · exact NExt.refl d
   · exact ⟨rfl, rfl, Nat.le_refl _, fun h => ⟨rfl, h⟩⟩
   · exact ⟨rfl, rfl, Nat.le_refl _, fun h => ⟨rfl, h⟩⟩
-  · have h := next_put (d.setHeld (flush (addPartial d.held r idx ep) r)) r
+  · have h := next_put (d.setHeld (flush (d.cacheAdd r idx ep) r)) r
     exact ⟨h.1, h.2.1, h.2.2.1, h.2.2.2⟩
 
 theorem next_tickStep (B i : Nat) (d : Node) : NExt d (d.tickStep B i).1 := by
@@ -462,7 +462,7 @@ theorem c07_fair_tick {nxt : Nat → Option Nat} {s : State} {U : List Nat} {G :
     intro x hx hh
     have side : Side s U G e ix x :=
       ⟨h.frame.nodup, h.lt, h.up, h.conn, h.vault, h.frame.member, h.frame.idxLt, h.frame.idxNodup,
-       fun k _ hu _ => Nat.le_of_eq (hh k (h.only k hu))⟩
+       fun k _ hu _ _ => Nat.le_of_eq (hh k (h.only k hu))⟩
     have hq : Quiet s U x e := c07_quiet_of_healthy h x hh
     exact c07_reshare_step_progress s U G e ix x (c + 1) side h.thr hh (fun i _ => by rw [hck i]) hx hq
   refine ⟨hH, hclk, ?_, ?_⟩
@@ -544,7 +544,7 @@ theorem c07_catch_progress {nxt : Nat → Option Nat} {s : State} {U : List Nat}
     intro i hi
     rw [hone i hi]
     exact (prog_aggregate' (S := fun _ => False) (d := (s.node i).setPending []) (V := ⟨G, e, ix i⟩) (h.up i hi) (hck i) (hh i hi)
-      (h.vault i hi) (hq.2.1 i hi) (hq.2.2 i hi) (fun _ hk => absurd hk id) (ix i)).weaken (fun k hk => Or.inr hk)
+      (h.vault i hi) (hq.2 i hi) (fun _ hk => absurd hk id) (ix i)).weaken (fun k hk => Or.inr hk)
   have hn : (s.forAll State.fireNode).nIdx = s.nIdx := a2
   have hcn : (s.forAll State.fireNode).conn = s.conn := a3
   have hres := settle_progress (s.forAll State.fireNode) U G e ix x (clk s) (by rw [hn]; exact h.frame)
@@ -557,12 +557,12 @@ theorem c07_catch_progress {nxt : Nat → Option Nat} {s : State} {U : List Nat}
     show Prog s.nIdx x (clk s) ⟨G, e, ix j⟩ (fun k => k = ix j) (((List.range s.n).foldl State.fireNode s).node j)
     rw [show ((List.range s.n).foldl State.fireNode s).node j = _ from this]
     exact hstep j hj
-  · intro m hm hdst hconn
+  · intro m hm hdst hconn hep
     rw [hcn] at hconn
     have hm' : m ∈ s.msgs ++ (List.range s.n).flatMap (fun i => (Node.fireSteps s.nIdx i (s.node i).pending.length (s.node i)).2) := by
       rw [← a5]; exact hm
     rcases List.mem_append.mp hm' with h1 | h1
-    · exact hq.1 m h1 (hdst ▸ hj) hconn
+    · exact hq.1 m h1 (hdst ▸ hj) hconn hep
     · obtain ⟨i, _, hmi⟩ := List.mem_flatMap.mp h1
       by_cases hu : (s.node i).up = true
       · rw [hone i (h.only i hu)] at hmi
@@ -788,7 +788,7 @@ def exEvs (thr : Nat) : List Ev :=
    .advance, .tick 0, .tick 1, .tick 2, .tick 3, .tick 4, .pull 0, .pull 1, .pull 2, .pull 3, .pull 4, .deliverAll,
    .pull 0, .pull 1, .pull 2, .pull 3, .pull 4, .stop 3]
 
-def exI : State := State.init ⟨Gen.transitionLateSwitch⟩ 5 4 exO
+def exI : State := State.init ⟨Gen.transitionLateSwitch, false⟩ 5 4 exO
 
 def exS (thr : Nat) : State := exI.run (exEvs thr)
 
